@@ -66,3 +66,82 @@ Proof.
     try (change (fK CSetting) with C; rewrite HL; first [assumption | lia]).
   now apply regularM_C.
 Qed.
+
+(** * The Gibbs table of PV.Wick is what the specification's weight function PV.EDSpec.weights computes from the
+      energy table (number type with the real ordering and the real exponential, WickC.CNumR), for every number
+      of real levels, whatever reference energy the function subtracts. *)
+Section CancelDiv.
+Variable F : fsetting.
+Add Field Ffield_AllMC : (fKf F).
+Lemma cancel_div : forall t w z : fK F, t <> f0 F -> z <> f0 F ->
+  fdiv F (fmul F t w) (fmul F t z) = fdiv F w z.
+Proof. intros t w z Ht Hz. field. split; assumption. Qed.
+End CancelDiv.
+
+Fixpoint ER (es : list R) (s : state) : R :=
+  match es, s with e :: es', b :: s' => (if b then e else 0) + ER es' s' | _, _ => 0 end.
+
+Lemma Est_levelsC : forall es s, Est CSetting (levelsC es) s = RtoC (ER es s).
+Proof.
+  induction es as [|e es IH]; intros [|b s]; try reflexivity.
+  unfold levelsC in *. cbn [map Est ER]. rewrite IH. cbn [fK f0 fadd CSetting].
+  destruct b; now rewrite RtoC_plus.
+Qed.
+
+Lemma Wst_boltzC : forall beta es s, Wst CSetting (boltzC beta es) s = RtoC (exp (- beta * ER es s)).
+Proof.
+  intros beta. induction es as [|e es IH]; intros [|b s]; cbn [boltzC map Wst ER];
+    try (rewrite Rmult_0_r, exp_0; reflexivity).
+  fold (boltzC beta es). rewrite IH. cbn [fK f1 fmul CSetting]. destruct b.
+  - rewrite <- RtoC_mult, <- exp_plus.
+    replace (- beta * e + - beta * ER es s) with (- beta * (e + ER es s)) by ring. reflexivity.
+  - rewrite <- RtoC_mult. replace (0 + ER es s) with (ER es s) by ring. now rewrite Rmult_1_l.
+Qed.
+
+Theorem weights_is_gibbs_allM : forall (beta : R) (es : list R),
+  weights C CNumR (RtoC beta) (energies CSetting (levelsC es)) = gibbs CSetting (boltzC beta es).
+Proof.
+  intros beta es. unfold weights. set (e0 := min_re C CNumR (energies CSetting (levelsC es))). clearbody e0.
+  destruct e0 as [a0 b0]. cbv zeta.
+  set (M := length es).
+  assert (HLe : @length (fK CSetting) (levelsC es) = M) by (unfold levelsC; now rewrite map_length).
+  assert (HLx : @length (fK CSetting) (boltzC beta es) = M) by (unfold boltzC; now rewrite map_length).
+  set (t := exp (beta * a0)). assert (Ht : RtoC t <> RtoC 0).
+  { intro E. apply (f_equal fst) in E. simpl in E. pose proof (exp_pos (beta * a0)). unfold t in E. lra. }
+  assert (HZ : Zp CSetting (boltzC beta es) <> RtoC 0).
+  { apply (Zp_nz CSetting). intros x Hx. unfold boltzC in Hx. apply in_map_iff in Hx. destruct Hx as [e [Hx _]]. subst x.
+    intro E. apply (f_equal fst) in E. simpl in E. pose proof (exp_pos (- beta * e)). lra. }
+  (* the unnormalised weights, entry by entry *)
+  assert (HU : map (fun e => nexp C CNumR (nopp C CNumR (nmul C CNumR (RtoC beta) (nsub C CNumR e (a0, b0)))))
+                   (energies CSetting (levelsC es)) =
+               map (fun n => Cmult (RtoC t) (Wst CSetting (boltzC beta es) (state_of_nat M n))) (seq 0 (Nat.pow 2 M))).
+  { unfold energies at 1. rewrite HLe, map_map. apply map_ext_in. intros n Hn.
+    apply in_seq in Hn.
+    assert (E1 : fold_left (fun acc ie => if bit n (fst ie) then fadd CSetting acc (snd ie) else acc)
+                           (@idx (fK CSetting) (levelsC es)) (f0 CSetting) = RtoC (ER es (state_of_nat M n))).
+    { rewrite <- Est_levelsC. rewrite <- (energies_nth CSetting (levelsC es) (state_of_nat M n))
+        by (now rewrite son_length).
+      rewrite nos_son by lia. unfold energies. rewrite HLe.
+      now rewrite nth_map_seq by lia. }
+    rewrite E1, Wst_boltzC. cbn [nexp nopp nmul nsub CNumR]. rewrite <- RtoC_mult. f_equal.
+    unfold t. rewrite <- exp_plus. f_equal. simpl. ring. }
+  rewrite HU.
+  assert (HS : ksum C CNumR (map (fun n => Cmult (RtoC t) (Wst CSetting (boltzC beta es) (state_of_nat M n)))
+                                (seq 0 (Nat.pow 2 M))) (fun x => x) =
+               Cmult (RtoC t) (Zp CSetting (boltzC beta es))).
+  { change (@ksum C CNumR C) with (@ksum (fK CSetting) (FNum CSetting) (fK CSetting)).
+    rewrite (ksum_lsum CSetting), (lsum_map CSetting).
+    change (lsum CSetting (seq 0 (Nat.pow 2 M)) (fun n => Cmult (RtoC t) (Wst CSetting (boltzC beta es) (state_of_nat M n))))
+      with (SS CSetting M (fun s => fmul CSetting (RtoC t) (Wst CSetting (boltzC beta es) s))).
+    rewrite (SS_scal CSetting). rewrite <- HLx at 1. now rewrite (SS_Wst CSetting). }
+  rewrite HS. unfold gibbs. cbv zeta. rewrite HLx, map_map. apply map_ext_in. intros n Hn.
+  apply in_seq in Hn.
+  assert (E2 : fdiv CSetting
+                 (fold_left (fun acc ix => if bit n (fst ix) then fmul CSetting acc (snd ix) else acc) (@idx (fK CSetting) (boltzC beta es)) (f1 CSetting))
+                 (fold_left (fun acc x => fmul CSetting acc (fadd CSetting (f1 CSetting) x)) (boltzC beta es) (f1 CSetting)) =
+               fdiv CSetting (Wst CSetting (boltzC beta es) (state_of_nat M n)) (Zp CSetting (boltzC beta es))).
+  { rewrite <- (gibbs_nth CSetting (boltzC beta es) (state_of_nat M n)) by (now rewrite son_length).
+    rewrite nos_son by lia. unfold gibbs. cbv zeta. rewrite HLx.
+    now rewrite nth_map_seq by lia. }
+  rewrite E2. exact (cancel_div CSetting _ _ _ Ht HZ).
+Qed.
